@@ -21,6 +21,7 @@ from rtmon import ds as dsmod
 ATTR_SETS = {
     "std": [("id", "int64", ()), ("x", "float32", (3,))],
     "std3": [("id", "int64", ()), ("x", "float32", (3,)), ("y", "uint8", (2, 2))],
+    "stdb": [("id", "int64", ()), ("x", "float32", (3,)), ("b", "bytes", ())],
 }
 
 
@@ -34,15 +35,30 @@ def y_payload(example_id: int) -> np.ndarray:
     return np.array([[i % 256, (i >> 8) % 256], [(i >> 16) % 256, 7]], dtype=np.uint8)
 
 
+def b_payload(example_id: int) -> bytes:
+    return f"blob-{int(example_id)}|".encode() * (int(example_id) % 3 + 1)
+
+
 def good_values(example_id: int, attr_set: str) -> dict[str, Any]:
     values = dsmod.example(example_id)
     if attr_set == "std3":
         values["y"] = y_payload(example_id)
+    if attr_set == "stdb":
+        values["b"] = b_payload(example_id)
     return values
 
 
 BAD_KINDS = ("shape", "rank", "dtype_unsafe", "dtype_foreign", "container", "object", "missing", "extra")
 MUST_REJECT = ("shape", "rank")   # the statement demands rejection of shape violations in every format
+
+
+def effective_kind(attr_set: str, kind: str, attr_idx: int) -> str:
+    """Variable-size (bytes) attributes have no shape/rank/container to violate: those kinds become a
+    foreign-dtype value."""
+    _, dtype, _ = ATTR_SETS[attr_set][attr_idx % len(ATTR_SETS[attr_set])]
+    if dtype == "bytes" and kind in ("shape", "rank", "dtype_unsafe", "container"):
+        return "dtype_foreign"
+    return kind
 
 
 def bad_values(example_id: int, attr_set: str, kind: str, attr_idx: int) -> dict[str, Any]:
@@ -51,6 +67,10 @@ def bad_values(example_id: int, attr_set: str, kind: str, attr_idx: int) -> dict
     names = [n for n, _, _ in ATTR_SETS[attr_set]]
     name, dtype, shape = ATTR_SETS[attr_set][attr_idx % len(names)]
     good = np.asarray(values[name])
+    kind = effective_kind(attr_set, kind, attr_idx)
+    if kind == "dtype_foreign" and dtype == "bytes":
+        values[name] = np.array([1.5, 2.5])
+        return values
     if kind == "shape":
         new_shape = (2,) if shape == () else tuple(shape[:-1]) + (shape[-1] + 1,)
         values[name] = np.resize(good, new_shape).astype(dtype)
@@ -187,7 +207,9 @@ def run_history(root: Path, hist: dict, after_session: Callable | None = None,
                         else:
                             values = good_values(ident, attr_set)
                         wrec = WriteRec(session=k, writer=0, split=write["split"], ident=ident,
-                                        meta=snapshot, bad=bad["kind"] if bad else None,
+                                        meta=snapshot,
+                                        bad=effective_kind(attr_set, bad["kind"], bad.get("attr", 0))
+                                        if bad else None,
                                         accepted=False, seq=seq)
                         model.writes.append(wrec)
                         try:
